@@ -25,6 +25,8 @@ import BHS.Model.Sync
 import BHS.Proofs.SyncStore
 import BHS.Proofs.SyncBasic
 import BHS.Proofs.SyncLoop
+import BHS.Model.SyncExp
+import BHS.Proofs.SyncExp
 
 set_option linter.unusedSectionVars false
 
@@ -79,13 +81,19 @@ structure Talking (st : State H) (p : Nat) (q : PeerSt H) : Prop where
   connected : q.disc = false
   headersFirst : st.headersFirst = true
 
+/-- the inHandler's part of a headers message (F4b switch) leaves the peer known, connected, in headers-first mode -/
+theorem Talking.seen {st : State H} {p : Nat} {q : PeerSt H} (ht : Talking st p q) :
+    Talking { st with peers := onHeadersReceived st.peers p } p (headersSeen q) :=
+  ⟨lookup_onHeadersReceived ht.found, by rw [headersSeen_inMap]; exact ht.inMap,
+    by rw [headersSeen_disc]; exact ht.connected, ht.headersFirst⟩
+
 theorem handleHeaders_rejected (cfg : Sync.Cfg H) (st : State H) (p : Nat) (q : PeerSt H) (hs : List (Src H))
     (ht : Talking st p q) (hne : hs.isEmpty = false)
     (he : (headersLoop cfg.chain st.nextCp st.store hs false none).2.2.2 = .rejected) :
-    handleHeaders cfg st p hs =
+    handleHeadersCore cfg st p hs =
       ({ st with store := (headersLoop cfg.chain st.nextCp st.store hs false none).1,
                  peers := (disconnectPeer st.peers p).1 }, .ban p :: (disconnectPeer st.peers p).2) := by
-  unfold handleHeaders
+  unfold handleHeadersCore
   rw [ht.found]
   simp only [ht.inMap, ht.headersFirst, hne, Bool.not_true, Bool.false_eq_true, if_false]
   rw [he]
@@ -93,10 +101,10 @@ theorem handleHeaders_rejected (cfg : Sync.Cfg H) (st : State H) (p : Nat) (q : 
 theorem handleHeaders_mismatch (cfg : Sync.Cfg H) (st : State H) (p : Nat) (q : PeerSt H) (hs : List (Src H))
     (ht : Talking st p q) (hne : hs.isEmpty = false)
     (he : (headersLoop cfg.chain st.nextCp st.store hs false none).2.2.2 = .mismatch) :
-    handleHeaders cfg st p hs =
+    handleHeadersCore cfg st p hs =
       ({ st with store := (headersLoop cfg.chain st.nextCp st.store hs false none).1,
                  peers := (disconnectPeer st.peers p).1 }, (disconnectPeer st.peers p).2) := by
-  unfold handleHeaders
+  unfold handleHeadersCore
   rw [ht.found]
   simp only [ht.inMap, ht.headersFirst, hne, Bool.not_true, Bool.false_eq_true, if_false]
   rw [he]
@@ -118,8 +126,11 @@ theorem C07_ban_disconnect (cfg : Sync.Cfg H) (st : State H) (p : Nat) (q : Peer
     exact headersLoop_forbidden cfg.chain st.nextCp _ x post _ _ (NoForbidden.run pre h0) hx
   have hne : (pre ++ x :: post).isEmpty = false := by
     cases pre <;> rfl
-  obtain ⟨hd, ha⟩ := disconnectPeer_connected ht.found ht.connected
-  rw [handleHeaders_rejected cfg st p q _ ht hne (by rw [hl]), hl]
+  obtain ⟨hd, ha⟩ := disconnectPeer_connected ht.seen.found ht.seen.connected
+  show (handleHeadersCore cfg { st with peers := onHeadersReceived st.peers p } p (pre ++ x :: post)).2 = _ ∧
+    (handleHeadersCore cfg { st with peers := onHeadersReceived st.peers p } p (pre ++ x :: post)).1.store = _ ∧
+    AllDisc (handleHeadersCore cfg { st with peers := onHeadersReceived st.peers p } p (pre ++ x :: post)).1.peers p
+  rw [handleHeaders_rejected cfg { st with peers := onHeadersReceived st.peers p } p (headersSeen q) _ ht.seen hne (by rw [hl]), hl]
   exact ⟨by rw [ha], rfl, hd⟩
 
 /-- once Disconnect() has been called on the peer, NO event sequence (that does not introduce a new peer object
@@ -150,14 +161,18 @@ theorem C07_checkpoint_mismatch (cfg : Sync.Cfg H) (st : State H) (p : Nat) (q :
     exact headersLoop_mismatch cfg.chain c _ x post _ _ r hadd hh hne
   have hnemp : (pre ++ x :: post).isEmpty = false := by
     cases pre <;> rfl
-  obtain ⟨hd, ha⟩ := disconnectPeer_connected ht.found ht.connected
-  rw [handleHeaders_mismatch cfg st p q _ ht hnemp (by rw [hl]), hl]
+  obtain ⟨hd, ha⟩ := disconnectPeer_connected ht.seen.found ht.seen.connected
+  show (handleHeadersCore cfg { st with peers := onHeadersReceived st.peers p } p (pre ++ x :: post)).2 = _ ∧
+    (handleHeadersCore cfg { st with peers := onHeadersReceived st.peers p } p (pre ++ x :: post)).1.store = _ ∧
+    r ∈ (handleHeadersCore cfg { st with peers := onHeadersReceived st.peers p } p (pre ++ x :: post)).1.store ∧
+    AllDisc (handleHeadersCore cfg { st with peers := onHeadersReceived st.peers p } p (pre ++ x :: post)).1.peers p
+  rw [handleHeaders_mismatch cfg { st with peers := onHeadersReceived st.peers p } p (headersSeen q) _ ht.seen hnemp (by rw [hl]), hl]
   exact ⟨ha, hrun.symm, (add_stored_mem cfg.chain _ x r hadd).1, hd⟩
 
 /-- a batch that is processed completely, matched the checkpoint at the cursor and brought a longest-chain header:
     the cursor moves to `findNext` of the matched height; the next request goes to the same peer and is
     `getheaders([matched checkpoint], next checkpoint)` — or, after the last checkpoint, `getheaders(locator, 0)`
-    (through the peer's duplicate filter, `pushGetHeaders`) -/
+    (through the peer's duplicate filter, `pushGetHeaders`, on the peer object as the inHandler left it: `headersSeen`) -/
 theorem C07_checkpoint_advance (cfg : Sync.Cfg H) (st : State H) (p : Nat) (q : PeerSt H) (hs : List (Src H)) (c : Nat × H)
     (s' : Store H) (fh : H) (ht : Talking st p q) (hc : st.nextCp = some c) (hne : hs.isEmpty = false)
     (hl : headersLoop cfg.chain st.nextCp st.store hs false none = (s', true, some fh, .completed)) :
@@ -165,22 +180,22 @@ theorem C07_checkpoint_advance (cfg : Sync.Cfg H) (st : State H) (p : Nat) (q : 
     (handleHeaders cfg st p hs).1.store = s' ∧
     (handleHeaders cfg st p hs).2 =
       match findNext cfg.checkpoints c.1 with
-      | some c' => (pushGetHeaders q [c.2] c'.2).2
-      | none => (pushGetHeaders q (locator s') cfg.zero).2 := by
+      | some c' => (pushGetHeaders (headersSeen q) [c.2] c'.2).2
+      | none => (pushGetHeaders (headersSeen q) (locator s') cfg.zero).2 := by
   rw [hc] at hl
-  unfold handleHeaders
-  rw [ht.found]
-  simp only [ht.inMap, ht.headersFirst, hne, hc, hl, Bool.not_true, Bool.false_eq_true, if_false, if_true]
+  unfold handleHeaders handleHeadersCore
+  simp only [ht.seen.found]
+  simp only [ht.seen.inMap, ht.headersFirst, hne, hc, hl, Bool.not_true, Bool.false_eq_true, if_false, if_true]
   cases hf : findNext cfg.checkpoints c.1 with
   | none =>
     simp only []
     unfold pushTo
-    simp only [ht.found]
+    simp only [ht.seen.found]
     exact ⟨by first | rfl | trivial, by first | rfl | trivial, by first | rfl | trivial⟩
   | some c' =>
     simp only []
     unfold pushTo
-    simp only [ht.found]
+    simp only [ht.seen.found]
     exact ⟨by first | rfl | trivial, by first | rfl | trivial, by first | rfl | trivial⟩
 
 /-- on an ascending checkpoint list `findNext` IS the next checkpoint: a member above the height, and the lowest such;
@@ -221,6 +236,59 @@ theorem C07_match_means_match (ccfg : Chain.Cfg H) (c : Nat × H) : ∀ (hs : Li
         · simp only [if_neg hk] at h; simp at h
       · simp only [if_neg hh] at h; exact lift _ h
 
+/-! ### the experimental engine (one peer object per connection) -/
+
+/-- experimental engine: a batch `pre ++ x :: post` whose prefix is processed completely and whose header `x` is
+    forbidden: exactly `disconnect` (this engine does not ban), the table is what ingesting `pre` leaves -/
+theorem C07_exp_forbidden (cfg : SyncExp.Cfg H) (st : SyncExp.State H) (pre post : List (Src H)) (x : Src H)
+    (hstart : st.started = true) (hconn : st.disc = false) (h0 : NoForbidden cfg.chain st.store)
+    (hx : cfg.chain.hashOf x ∈ cfg.chain.forbidden)
+    (hpre : (SyncExp.headersLoop cfg st.store st.cp st.cpIdx pre 0 0).2.2.2.2.2 = .completed) :
+    (SyncExp.handleHeaders cfg st (pre ++ x :: post)).2 = [.disconnect] ∧
+    (SyncExp.handleHeaders cfg st (pre ++ x :: post)).1.disc = true ∧
+    (SyncExp.handleHeaders cfg st (pre ++ x :: post)).1.store = run cfg.chain st.store pre := by
+  have hstore := SyncExp.headersLoop_store_completed cfg pre st.store st.cp st.cpIdx 0 0 hpre
+  have hl : (SyncExp.headersLoop cfg st.store st.cp st.cpIdx (pre ++ x :: post) 0 0).2.2.2.2.2 = .rejected ∧
+      (SyncExp.headersLoop cfg st.store st.cp st.cpIdx (pre ++ x :: post) 0 0).1 = run cfg.chain st.store pre := by
+    rw [SyncExp.headersLoop_append cfg (x :: post) pre st.store st.cp st.cpIdx 0 0 hpre, hstore,
+      SyncExp.headersLoop_forbidden cfg _ _ _ _ _ x post (NoForbidden.run pre h0) hx]
+    exact ⟨rfl, rfl⟩
+  unfold SyncExp.handleHeaders
+  simp only [hstart, hconn, Bool.not_true, Bool.or_self, Bool.false_eq_true, if_false, hl.1]
+  exact ⟨by first | rfl | trivial, by first | rfl | trivial, hl.2⟩
+
+/-- experimental engine: a longest-chain header at the cursor's height that is not the checkpoint: exactly
+    `disconnect`; the header IS in the table -/
+theorem C07_exp_checkpoint_mismatch (cfg : SyncExp.Cfg H) (st : SyncExp.State H) (pre post : List (Src H)) (x : Src H)
+    (c : Nat × H) (r : Row H) (hstart : st.started = true) (hconn : st.disc = false)
+    (hpre : (SyncExp.headersLoop cfg st.store st.cp st.cpIdx pre 0 0).2.2.2.2.2 = .completed)
+    (hcp : (SyncExp.headersLoop cfg st.store st.cp st.cpIdx pre 0 0).2.1 = some c)
+    (hadd : (add cfg.chain (run cfg.chain st.store pre) x).2 = .stored r) (hlc : r.st = .lc) (hh : r.height = c.1)
+    (hne : r.hash ≠ c.2) :
+    (SyncExp.handleHeaders cfg st (pre ++ x :: post)).2 = [.disconnect] ∧
+    (SyncExp.handleHeaders cfg st (pre ++ x :: post)).1.disc = true ∧
+    r ∈ (SyncExp.handleHeaders cfg st (pre ++ x :: post)).1.store := by
+  have hstore := SyncExp.headersLoop_store_completed cfg pre st.store st.cp st.cpIdx 0 0 hpre
+  have hl : (SyncExp.headersLoop cfg st.store st.cp st.cpIdx (pre ++ x :: post) 0 0).2.2.2.2.2 = .checkpointError ∧
+      (SyncExp.headersLoop cfg st.store st.cp st.cpIdx (pre ++ x :: post) 0 0).1 =
+        (add cfg.chain (run cfg.chain st.store pre) x).1 := by
+    rw [SyncExp.headersLoop_append cfg (x :: post) pre st.store st.cp st.cpIdx 0 0 hpre, hstore, hcp,
+      SyncExp.headersLoop_mismatch cfg _ c _ _ _ x post r hadd hlc hh hne]
+    exact ⟨rfl, rfl⟩
+  unfold SyncExp.handleHeaders
+  simp only [hstart, hconn, Bool.not_true, Bool.or_self, Bool.false_eq_true, if_false, hl.1]
+  refine ⟨by first | rfl | trivial, by first | rfl | trivial, ?_⟩
+  show r ∈ (SyncExp.headersLoop cfg st.store st.cp st.cpIdx (pre ++ x :: post) 0 0).1
+  rw [hl.2]
+  exact (add_stored_mem cfg.chain _ x r hadd).1
+
+/-- experimental engine: after Disconnect() nothing is processed and nothing is sent any more -/
+theorem C07_exp_silent_after (cfg : SyncExp.Cfg H) (st : SyncExp.State H) (hd : st.disc = true) (ev : SyncExp.Event H) :
+    SyncExp.step cfg st ev = (st, []) := by
+  cases ev with
+  | headers hs => unfold SyncExp.step SyncExp.handleHeaders; simp [hd]
+  | inv invs => unfold SyncExp.step SyncExp.handleInv; simp [hd]
+
 /-! ### non-vacuity: a concrete peer table and store over `H := Nat` -/
 
 /-- toy hash `nonce + 1`; hash 99 is forbidden (C01's example configuration); checkpoints at heights 2 and 4 -/
@@ -256,5 +324,14 @@ example : Asc exCfg.checkpoints := by unfold Asc; decide
 example : findNext exCfg.checkpoints 2 = some (4, 14) ∧ findNext exCfg.checkpoints 4 = none := by decide
 example : AllDisc (handleHeaders exCfg exState 7 exBatch).1.peers 7 := by unfold AllDisc; decide
 example : ∃ p, byHash [C01.exRoot, C01.exOrphan] (C01.exSrc 5 50).prev = some p ∧ p.st = .orphan := ⟨C01.exOrphan, by decide⟩
+
+-- experimental engine on the same batch: disconnect, the header before the forbidden one stored
+def exX : SyncExp.State Nat :=
+  { started := true, cp := some (2, 12), cpIdx := 0, sendHeadersMode := false, syncedCheckpoints := false, latestHeight := 9,
+    pver := 70013, disc := false, store := [C01.exRoot] }
+def exXCfg : SyncExp.Cfg Nat := { chain := C01.exCfg, zero := 0, checkpoints := [(2, 12), (4, 14)] }
+example : (SyncExp.handleHeaders exXCfg exX exBatch).2 = [.disconnect] ∧
+    (SyncExp.handleHeaders exXCfg exX exBatch).1.store.length = 2 := by decide
+example : (SyncExp.handleHeaders exXCfg exX [C01.exSrc 1000 10, C01.exSrc 11 20]).2 = [.disconnect] := by decide
 
 end BHS.Props.C07
